@@ -38,6 +38,14 @@ def run(ctx):
     def make(cls):
         if cls == 'MetamericLoss':
             return P.MetamericLoss(n_pyramid_levels=2, n_orientations=2)
+        if cls == 'MetamericLoss/radial_weight':
+            return P.MetamericLoss(n_pyramid_levels=2, n_orientations=2, use_radial_weight=True)
+        if cls == 'MetamericLoss/fullres_l0':
+            return P.MetamericLoss(n_pyramid_levels=2, n_orientations=2, use_fullres_l0=True, use_l2_foveal_loss=False)
+        if cls == 'MetamericLoss/no_foveal_l2':
+            return P.MetamericLoss(n_pyramid_levels=2, n_orientations=2, use_l2_foveal_loss=False, mode='linear')
+        if cls == 'BlurLoss/no_source_blur':
+            return P.BlurLoss(blur_source=False, mode='linear')
         if cls == 'MetamerMSELoss':
             return P.MetamerMSELoss(n_pyramid_levels=2, n_orientations=2)
         if cls == 'BlurLoss':
@@ -50,15 +58,16 @@ def run(ctx):
         return float(obj(image, target, gaze=gaze))
 
     def cached(obj, cls):
-        if cls == 'MetamericLoss' or cls == 'MetamericLossUniform':
+        if cls.startswith('MetamericLoss'):
             return getattr(obj, 'target_stats', None)
         if cls == 'MetamerMSELoss':
             return getattr(obj, 'target_metamer', None)
         return None
 
     nseq = ctx.n(3, 20)
-    for cls in ('MetamericLoss', 'MetamerMSELoss', 'BlurLoss', 'MetamericLossUniform'):
-        for it in range(nseq):
+    for cls in ('MetamericLoss', 'MetamericLoss/radial_weight', 'MetamericLoss/fullres_l0', 'MetamericLoss/no_foveal_l2', 'MetamerMSELoss',
+                'BlurLoss', 'BlurLoss/no_source_blur', 'MetamericLossUniform'):
+        for it in range(nseq if '/' not in cls else max(2, nseq // 2)):
             L = rng.randint(3, ctx.n(6, 8))
             seq = []
             for _ in range(L):
@@ -104,7 +113,7 @@ def run(ctx):
                     break
                 if v < -1e-9:
                     ctx.violation('%s returned a negative value %g' % (cls, v), rec, {'class': cls, 'what': 'negative'})
-            if failed or cls in ('BlurLoss',):
+            if failed or cls.startswith('BlurLoss'):
                 continue
             # decision sequence vs the keyed-cache model (key = (size, target, gaze); uniform loss has no gaze)
             if ctx.drv_ok:
@@ -131,7 +140,7 @@ def run(ctx):
                               {'class': 'RadiallyVaryingBlur', 'what': 'history'})
                 break
     # ---- zero at identity / non-negativity / finiteness
-    for cls in ('MetamericLoss', 'MetamerMSELoss', 'BlurLoss', 'MetamericLossUniform'):
+    for cls in ('MetamericLoss', 'MetamericLoss/radial_weight', 'MetamericLoss/fullres_l0', 'MetamerMSELoss', 'BlurLoss', 'MetamericLossUniform'):
         t = targets[(shapes[0], 0)]
         v = call(make(cls), cls, t.clone(), t.clone(), gazes[1])
         ctx.case(('identity', cls), True)
